@@ -82,6 +82,14 @@ func (pm *ProtocolMessenger) PutValue(ctx context.Context, p peer.ID, rec *recpb
 		return err
 	}
 
+	if rpmes.GetRecord() == nil {
+		// The remote peer echoed no record at all: dereferencing it below would
+		// crash the node on a response any peer can send.
+		const errStr = "value not put correctly: no record in response"
+		logger.Infow(errStr, "put-message", pmes, "get-message", rpmes)
+		return errors.New(errStr)
+	}
+
 	if !bytes.Equal(rpmes.GetRecord().Value, pmes.GetRecord().Value) {
 		const errStr = "value not put correctly"
 		logger.Infow(errStr, "put-message", pmes, "get-message", rpmes)
